@@ -351,7 +351,17 @@ class BaseSubscription:
             t.duration * 1000,
         )
         if matched:
-            await self.queue.put((self.sub_id, event))
+            # the output validator applies to live pushes as it does to stored results
+            check_output = getattr(self.storage, "check_output", None)
+            if not check_output or check_output(
+                event,
+                {
+                    "config": Config,
+                    "client_id": self.client_id,
+                    "auth_token": self.auth_token,
+                },
+            ):
+                await self.queue.put((self.sub_id, event))
 
     def check_event(self, event: Event, filters: list):
         for query in filters:
